@@ -164,6 +164,6 @@ class GateReplacer(Visitor):
 def filter_float(value):
     """Change a floating point value that represents an integer into an
     integer."""
-    if isinstance(value, float) and float(value) == int(value):
+    if isinstance(value, float) and value.is_integer():
         return int(value)
     return value
